@@ -75,6 +75,9 @@ type Config struct {
 	// Tombstone is the value bytes used to mark delete
 	Tombstone []byte
 
+	// TTLPrefix is the prefix of the keys written with ttl
+	TTLPrefix []byte
+
 	// TTL is the time that key written with ttl will live
 	TTL time.Duration
 }
@@ -109,6 +112,7 @@ func (r *scanner) rangeWithLimit(ctx context.Context, start []byte, end []byte, 
 		tso:       tso,
 		revision:  revision,
 		tombstone: r.config.Tombstone,
+		ttlPrefix: r.config.TTLPrefix,
 		compact:   false,
 	}, r.store, r.coder, r.metricCli)
 	_, err = w.run(ctx, receiver)
@@ -274,6 +278,7 @@ func (r *scanner) scan(ctx context.Context, start []byte, end []byte, revision u
 				revision:        revision,
 				compact:         compact,
 				tombstone:       r.config.Tombstone,
+				ttlPrefix:       r.config.TTLPrefix,
 				timeoutRevision: timeoutRevision,
 			}, store, r.coder, r.metricCli)
 
@@ -331,6 +336,9 @@ type workerConfig struct {
 
 	// tombstone indicate the deleted key's value
 	tombstone []byte
+
+	// ttlPrefix indicate the prefix of the keys written with ttl
+	ttlPrefix []byte
 
 	// compact is the switch of compaction
 	compact bool
@@ -571,7 +579,7 @@ func (w *worker) compactIfExpired(iter storage.Iter, rawKey []byte, revision uin
 		w.timeoutRevision == 0 {
 		return false, nil
 	}
-	if bytes.Contains(rawKey, []byte("/events/")) {
+	if len(w.ttlPrefix) > 0 && bytes.HasPrefix(rawKey, w.ttlPrefix) {
 		//? consider two type of compact now:
 		//? 1. delete directly from storage engine (use this one right now)
 		//? 2. set tombstone and delete util next compaction loop
